@@ -620,7 +620,7 @@ func (g *Gen) prefixExtra() []Op {
 	add := func(name string, a ...int64) { ops = append(ops, Op{Name: name, A: a}) }
 	// handles continue after the layer-1 prefix (2 nets, 3 buses, 4 nodes + interfaces, 6 messages,
 	// 3 enums, 8 values); they are computed by the executor, the generator only needs kinds
-	for _, sz := range []int64{1, 4, 8, 16, 33} {
+	for _, sz := range []int64{1, 4, 8, 12, 16, 33} {
 		add("NewType", sz, int64(g.r.below(2)))
 	}
 	add("NewUnit")
@@ -646,7 +646,7 @@ func (g *Gen) signalOps(p *Pool) []Op {
 	}
 	counts := []int64{1, 2, 4}
 	add("NewMuxSignal", g.name(), counts[g.r.below(2)], 8)
-	add("NewMuxSignal", g.name(), counts[g.r.below(3)], 16)
+	add("NewMuxSignal", g.name(), counts[1+g.r.below(2)], 16)
 	add("NewMuxSignal", g.name(), counts[g.r.below(3)], 32)
 	return ops
 }
@@ -1047,15 +1047,19 @@ func expectExtra(p *Pool, o Op) Expect {
 			return one("OutOfBounds GroupID")
 		}
 	case "StdSetType":
-		if p.typ(a(1)) == nil {
+		t := p.typ(a(1))
+		if t == nil {
 			return one("Nil Argument")
 		}
-		return Expect{LayoutMaybe: true}
+		s := p.sig(a(0))
+		return growExpect(s, t.Size()-s.GetSize())
 	case "EnumSetEnum":
-		if p.enum(a(1)) == nil {
+		e := p.enum(a(1))
+		if e == nil {
 			return one("Nil Argument")
 		}
-		return Expect{LayoutMaybe: true}
+		s := p.sig(a(0))
+		return growExpect(s, e.GetSize()-s.GetSize())
 	case "Assign":
 		at := p.attr(a(1))
 		if at == nil {
@@ -1110,10 +1114,47 @@ func expectExtra(p *Pool, o Op) Expect {
 	return Expect{}
 }
 
+// growExpect: the documented precondition of a size change of one placed signal, by brute force on
+// the public getters: the signal may grow by d bits iff in every layout that holds it (the message
+// payload, or each group of its multiplexer) the free bits behind it are at least d; the signals
+// behind it are pushed, nothing in front of it moves. A shrink is always possible.
+func growExpect(s acme.Signal, d int) Expect {
+	if d <= 0 {
+		return Expect{}
+	}
+	room := func(size int, items []acme.Signal) bool {
+		used, seen := 0, false
+		for _, x := range items {
+			if x.EntityID() == s.EntityID() {
+				seen = true
+				used = x.GetRelativeStartPos()
+			}
+			if seen {
+				used += x.GetSize()
+			}
+		}
+		return !seen || size-used >= d
+	}
+	if mx := s.ParentMultiplexerSignal(); mx != nil {
+		for _, g := range mx.GetSignalGroups() {
+			if !room(mx.GroupSize(), g) {
+				return one("Layout SignalSize")
+			}
+		}
+		return Expect{}
+	}
+	if m := s.ParentMessage(); m != nil {
+		if !room(m.SizeByte()*8, m.Signals()) {
+			return one("Layout SignalSize")
+		}
+	}
+	return Expect{}
+}
+
 // fitsOracle: extra token appended to the O line of operations whose model takes the layout oracle
 func fitsOracle(o Op, cause string) (int64, bool) {
 	switch o.Name {
-	case "EnumAddValue", "EvalUpdateIndex":
+	case "EnumAddValue", "EvalUpdateIndex", "StdSetType", "EnumSetEnum":
 		if cause == "Layout" {
 			return 0, true
 		}
